@@ -109,12 +109,17 @@ type P4 struct {
 	Code string `gorm:"size:16;unique"`
 	Qty  int64  `gorm:"check:qty_nonneg,qty >= 0"`
 	Memo string `gorm:"not null;default:''"`
+	Kind string `gorm:"size:8;check:chk_kind,kind IN ('bug','task','story')"` // named check with commas
+	Pts  int64  `gorm:"check:chk_pts,coalesce(pts,0) >= 0"`
 }
 type P4v2 struct {
 	ID    uint   `gorm:"primaryKey"`
 	Code  string `gorm:"size:16;unique"`
 	Qty   int64  `gorm:"check:qty_nonneg,qty >= 0"`
 	Memo  string `gorm:"not null;default:'';unique"`
+	Kind  string `gorm:"size:8;check:chk_kind,kind IN ('bug','task','story')"`
+	Pts   int64  `gorm:"check:chk_pts,coalesce(pts,0) >= 0"`
+	Sev   string `gorm:"size:4;check:chk_sev,sev IN ('lo','hi','no')"`
 	Price int64  `gorm:"check:price_pos,price > -1;default:1"`
 	Extra string `gorm:"index:idx_p4_extra,unique"`
 }
@@ -437,6 +442,33 @@ type P14v2 struct {
 }
 
 func (P14v2) TableName() string { return "p14" }
+
+// ---- P15: tag spellings with blanks after ';', index settings in every position ----
+type P15 struct {
+	ID uint   `gorm:"primaryKey"`
+	A  string `gorm:"size:32; not null; uniqueIndex"`
+	B  string `gorm:"index; size:20"`
+	C  int64  `gorm:"default:3; index:idx_p15_c; not null"`
+	D  string `gorm:" size:10;  index:idx_p15_de,priority:1"`
+	E  int64  `gorm:"not null; index:idx_p15_de,priority:2"`
+	F  string `gorm:"size:12; unique; column:f_col"`
+	G  int64  `gorm:"check:chk_p15_g,g >= 0; default:1"`
+}
+type P15v2 struct {
+	ID uint   `gorm:"primaryKey"`
+	A  string `gorm:"size:32; not null; uniqueIndex"`
+	B  string `gorm:"index; size:20"`
+	C  int64  `gorm:"default:3; index:idx_p15_c; not null"`
+	D  string `gorm:" size:10;  index:idx_p15_de,priority:1"`
+	E  int64  `gorm:"not null; index:idx_p15_de,priority:2"`
+	F  string `gorm:"size:12; unique; column:f_col"`
+	G  int64  `gorm:"check:chk_p15_g,g >= 0; default:1"`
+	H  string `gorm:"size:16; uniqueIndex:idx_p15_h"`
+	I  int64  `gorm:"default:0; index"`
+	J  string `gorm:"size:8; not null; default:'j'; index:idx_p15_j"`
+}
+
+func (P15v2) TableName() string { return "p15" }
 
 // ---- reorder family: chain and diamond of belongs-to dependencies ----
 type RA struct {
